@@ -3,6 +3,7 @@ import XmppModel.Model.CloseProbe
 import XmppModel.Model.CloseFraming
 import XmppModel.Lemmas.Close
 import XmppModel.Lemmas.CloseEnv
+import XmppModel.Lemmas.CloseServe
 import XmppModel.Generated.C10
 /-!
 # C10 — closing is idempotent, final and observable
@@ -1275,5 +1276,105 @@ theorem C10_probe_framing_close :
 theorem C10_probe_framing_old_shapes_differ :
     Framing.probeTable false true ≠ Framing.probeTable true true ∧
     Framing.probeTable true false ≠ Framing.probeTable true true := by decide
+
+/-! ### Round E: `Serve` as a thread (`SrvLts`): it returns, and it is never stuck for good
+
+`SrvLts` has the `Serve` goroutine with explicit control points (the read under the input lock,
+the handler and its writer taking the output lock while the input lock is held, `sendError`,
+`closeInputStream`: input lock then state mutex, the deferred `Close`: output lock), any number
+of application goroutines holding a token reader / a token writer / calling `Close` or a
+transmit function, the peer and the clock.  A schedule is any list of actions. -/
+
+open SrvLts in
+/-- **`Serve` returns** (the clause a sequential history cannot express): in EVERY reachable
+state — any schedule of `Serve`, application goroutines, peer input, the deadline, with or
+without ill-behaved nesting — in which the peer's closing element has been delivered (or `Serve`
+is already in its shutdown) and no application goroutine holds the input or the output lock,
+`Serve`'s return is reached by steps of `Serve` alone, within `rank` steps; and it leaves both
+directions marked closed and exactly one closing tag on the wire, the last item. -/
+theorem C10_serve_returns_when_peer_closed (nest : Bool) (acts : List Act)
+    (hf : (run nest init acts).inLock ≠ .app ∧ (run nest init acts).outLock ≠ .app)
+    (hd : (run nest init acts).pending = some .close ∨ inShutdown (run nest init acts).spc = true)
+    (hs : (run nest init acts).spc ≠ .notStarted) :
+    ∃ r, let s' := serveRun (rank (run nest init acts).spc) (run nest init acts)
+      s'.spc = .returned r ∧ s'.inClosed = true ∧ s'.outClosed = true ∧
+      ∃ pre, s'.wire = pre ++ [.close] ∧ closeCount pre = 0 := by
+  have inv := inv_run nest acts init inv_init
+  obtain ⟨r, hr⟩ := returns _ _ inv (Nat.le_refl _) hf hd hs
+  have inv' := inv_serveRun (rank (run nest init acts).spc) _ inv
+  have hb := inv'.ret r hr
+  exact ⟨r, hr, hb.1, hb.2, inv'.shut hb.2⟩
+
+/-- non-vacuity: `Serve` reading, a stanza answered by the handler, an application `Close` in
+between, then the peer's closing element: all hypotheses hold, `Serve` returns nil, wire
+`el, close` -/
+example :
+    let s := SrvLts.run false SrvLts.init [.start, .serve, .serve, .deliver (.stanza true), .serve, .serve, .serve,
+      .appAcquireOut, .appCloseSession, .appReleaseOut, .deliver .close]
+    (s.inLock ≠ .app ∧ s.outLock ≠ .app) ∧ s.pending = some .close ∧ s.spc = .handling ∧
+    (SrvLts.serveRun (SrvLts.rank s.spc) s).spc = .returned .nil_ ∧
+    (SrvLts.serveRun (SrvLts.rank s.spc) s).wire = [.el, .close] := by decide
+
+open SrvLts in
+/-- **no deadlock between `Serve`'s shutdown, the handler's writer and the application**
+(lock order input → state → output, review B.4): for well-behaved application goroutines (each
+holds at most one of the two locks and does not wait while holding it), in every reachable state
+in which `Serve` cannot move it has not been started, has returned, is waiting for the peer or
+the deadline inside its read, or waits for a lock whose holder can release it at once — and then
+`Serve` can move. -/
+theorem C10_serve_never_stuck (acts : List Act) (h : serveStep (run false init acts) = none) :
+    (run false init acts).spc = .notStarted ∨ (∃ r, (run false init acts).spc = .returned r) ∨
+    ((run false init acts).spc = .reading ∧ (run false init acts).pending = none ∧ (run false init acts).expired = false) ∨
+    (∃ s', (step false (run false init acts) .appReleaseIn = some s' ∨
+            step false (run false init acts) .appReleaseOut = some s') ∧ serveStep s' ≠ none) :=
+  never_stuck _ (inv_run false acts init inv_init) (run_pinned acts init rfl) h
+
+/-- NOT well-behaved (negation witness): an application goroutine that holds a token writer and
+asks for a token reader while a handler that holds the input lock wants to reply — `Serve` and
+the application wait for each other for good.  (An application-level deadlock the library cannot
+prevent; it is the reason for the hypothesis of `C10_serve_never_stuck`.) -/
+theorem C10_nested_application_locks_deadlock :
+    let s := SrvLts.run true SrvLts.init [.start, .serve, .serve, .appAcquireOut, .appNest, .deliver (.stanza true), .serve]
+    s.spc = .wantOut ∧ SrvLts.serveStep s = none ∧ SrvLts.step true s .appReleaseOut = none ∧
+    SrvLts.step true s .appNestAcquire = none ∧ SrvLts.step true s .appReleaseIn = none := by decide
+
+open SrvLts in
+/-- **idempotent and final, with `Serve` as a thread**: every schedule (also with ill-behaved
+nesting): at most one closing tag, nothing after it; once `Serve` has returned both directions
+are marked closed and the tag is there -/
+theorem C10_srv_close_once_final (nest : Bool) (acts : List Act) :
+    closeCount (run nest init acts).wire ≤ 1 ∧
+    (∀ pre post, (run nest init acts).wire = pre ++ .close :: post → post = []) ∧
+    (∀ r, (run nest init acts).spc = .returned r →
+      (run nest init acts).inClosed = true ∧ (run nest init acts).outClosed = true ∧
+      closeCount (run nest init acts).wire = 1) := by
+  have inv := inv_run nest acts init inv_init
+  have hcnt : ∀ (h : (run nest init acts).outClosed = true), closeCount (run nest init acts).wire = 1 := by
+    intro h
+    obtain ⟨p, hw, hp⟩ := inv.shut h
+    rw [hw, closeCount_append, hp]; rfl
+  refine ⟨?_, ?_, ?_⟩
+  · cases hc : (run nest init acts).outClosed with
+    | true => rw [hcnt hc]; exact Nat.le_refl 1
+    | false => rw [inv.open_ hc]; exact Nat.zero_le 1
+  · intro pre post hw
+    cases hc : (run nest init acts).outClosed with
+    | false =>
+      have := inv.open_ hc
+      rw [hw, closeCount_append] at this
+      simp [closeCount] at this
+    | true =>
+      obtain ⟨p, hw', hp⟩ := inv.shut hc
+      rcases List.eq_nil_or_concat post with hnil | ⟨post', x, hx⟩
+      · exact hnil
+      · exfalso
+        rw [hx, hw'] at hw
+        have hw2 : p ++ [Item.close] = (pre ++ .close :: post') ++ [x] := by simpa using hw
+        have := (List.append_inj' hw2 rfl).1
+        rw [this, closeCount_append] at hp
+        simp [closeCount] at hp
+  · intro r hr
+    have hb := inv.ret r hr
+    exact ⟨hb.1, hb.2, hcnt hb.2⟩
 
 end XmppModel.Props.C10
